@@ -65,6 +65,9 @@ Definition spec_parent_b (prod : list ev) (o : result) : bool :=
 Definition slot_outcomes (kinds : list kind) (i : nat) : list ev :=
   match nth_error kinds i with
   | Some KSilent => [Fail EDeadline; Fail ECanceled]
+  (* (response, error) together: the attempt failed (an error outcome); the incomplete
+     response that came with the error is still something the attempt produced *)
+  | Some KIncompleteErr => [Fail (EAttempt (N.of_nat i)); Res (slot_resp i false)]
   | _ => slot_events kinds i
   end.
 Definition produced (kinds : list kind) : list ev :=
